@@ -426,7 +426,10 @@ fn get_code_style_sections<'b>(
             None => path.len(),
         },
     ) {
-        let match_style_sections = ansi::parse_style_sections(&raw_line[(prefix_end + 1)..])
+        // (the separator is one byte long; if what follows the prefix is something else, the
+        // raw line is not what the parsed line was made from)
+        let code = raw_line.get((prefix_end + 1)..)?;
+        let match_style_sections = ansi::parse_style_sections(code)
             .iter()
             .map(|(ansi_term_style, s)| {
                 if ansi_term_style.is_bold
@@ -735,6 +738,12 @@ pub fn _parse_grep_line<'b>(regex: &Regex, line: &'b str) -> Option<GrepLine<'b>
         }
     })
     .unwrap(); // The regex matches so one of the three alternatives must have matched
+    if line_number.is_none() && [3, 5, 7].iter().any(|i| caps.get(*i).is_some()) {
+        // Digits were captured as the line number but they are not a number we can represent
+        // (too many of them): without it, the code would no longer be found where
+        // "path:number:" ends in the raw line. Not a line of this form.
+        return None;
+    }
     let code = caps.get(8).unwrap().as_str().into();
 
     Some(GrepLine {
